@@ -3,11 +3,14 @@ import copy
 import os
 
 import shapelib as sl
+import shapehist as shh
 from lib import coq_list as L, coq_term_str as S, coq_nat as N
 
 THEOREMS = ['C16_embedded_eq_posthoc', 'C16_embedded_driver', 'C16_variants_equal', 'C16_calls_once_children_first',
-            'C16_example']
-GEN_DEPS = []
+            'C16_example', 'C16_conditions_are_source', 'C16_lookup_is_current_state', 'C16_embedded_is_current_state',
+            'C16_memo_lookup_refuted', 'C16_merge_embedded_eq_posthoc', 'C16_vargs_call_agree',
+            'C16_vargs_embedded_eq_posthoc', 'C16_embedded_meta_refused_inplace_refuted', 'C16_inplace_dag_refuted']
+GEN_DEPS = ['ShapeHoles']
 RULE = ('(a) random trees (depth <= 4, 0-4 children, rule names incl. `_x`, three token types, None leaves, childless '
         'trees) x generated pure transformer classes (callbacks on a random subset of rule names and token types building '
         'tagged tuples; plain / function-level v_args(inline=True) / v_args(tree=True) / mixed / class-level v_args / '
@@ -27,6 +30,16 @@ RULE = ('(a) random trees (depth <= 4, 0-4 children, rule names incl. `_x`, thre
         'followed gives the same value - over lexer in {contextual, basic}, propagate_positions on/off, the same '
         'class variants and constructor modes (incl. visit_tokens=False with terminal callbacks: F42 regression); '
         '(d) TransformerChain T1*T2 over the four classes against the composed reference; (c) python-only: the four classes on DAG-shaped inputs (shared sub-objects). '
+        'Round 12 (harness/shapehist.py): (h) transformer OBJECTS WITH A HISTORY - 16 histories (used on the very tree / text; copy.copy / '
+        'deepcopy then re-configured; setattr of a bound method of a differently configured donor object over / beside a class-level '
+        'callback; delattr; merge_transformers after use; class-level assignment after use; visit_tokens toggled after use; compositions) '
+        'x every sampled tree x four classes (value == documented value for the attributes the object has NOW == Coq models under the '
+        'symbolic transformer of that state; merge also through Shape/GenTie.merge_T) and x fixed + random grammars (embedded on the SAME '
+        'object, in both orders, == afterwards == documented); (v) v_args adapters: lark\'s _call_userfunc, apply_visit_wrapper and '
+        'inplace_transformer on recording functions for plain / inline / tree / meta / meta+inline / custom wrappers against Shape/VArgs.v; '
+        '(g) DAG-shaped inputs as heaps of objects (4 fixed sharing shapes incl. F31, random DAGs of 2-6 objects, tree-shaped controls): '
+        'iter_subtrees order, final value of Transformer_InPlace and Transformer_InPlaceRecursive against Shape/InPlaceDag.v in Coq; '
+        'Transformer / _NonRecursive / _InPlaceRecursive must give the documented value of the DAG read as a tree. '
         'non-trivial = distinct (tree, transformer) with >= 3 nodes / distinct (grammar, config, text, transformer)')
 TRUSTED_BASE = ['hand model Shape/Transform.v of visitors.py (tied by value and call log on every case); in-place variants '
                 'are modelled on a functional heap (a tree with replaced slots); object identity / DAG inputs are not '
@@ -37,7 +50,8 @@ TRUSTED_BASE = ['hand model Shape/Transform.v of visitors.py (tied by value and 
 ASSUMPTIONS = ['callbacks are pure and defined only on non-underscore rule names, aliases, template names and terminals',
                'embedded transformers derive from Transformer, Transformer_NonRecursive or Transformer_InPlaceRecursive '
                '(a Transformer_InPlace subclass is handled differently by create_callback: exotic stream)']
-IMPORTS = 'From LV Require Import Base.Prelude Shape.Chain Shape.Spec Shape.Transform Shape.ChainCheck.'
+IMPORTS = ('From LV Require Import Base.Prelude Shape.Chain Shape.Spec Shape.Transform Shape.ChainCheck Shape.VArgs '
+           'Shape.InPlaceDag Shape.Round12Check.')
 
 RULE_POOL = ['a', 'b', 'c', '_x', 'start']
 TOK_POOL = ['A', 'B', 'N']
@@ -438,20 +452,32 @@ def correspond(ctx):
     if meta:
         ctx.sample({'embedded': meta[0]})
     deferred += [('(CaseEMB %s)' % c, ('emb', m)) for c, m in zip(cases, meta)]
+    deferred = [('(CaseOld %s)' % c, h) for c, h in deferred]
+    # round 12: objects with a history, v_args adapters, DAG-shaped inputs (harness/shapehist.py)
+    for stream in (shh.history_stream, shh.vargs_stream, shh.dag_stream):
+        try:
+            stream(ctx, deferred)
+        except Exception:
+            import traceback
+            ctx.violation('harness:%s' % stream.__name__, {'traceback': traceback.format_exc()[-1500:]}, False,
+                          'the stream itself raised')
     chunk = max(50, -(-len(deferred) // 3))
-    bad, errs = ctx.coq_bad_indices('c16', IMPORTS, 'c16_check', [d[0] for d in deferred], chunk=chunk)
+    bad, errs = ctx.coq_bad_indices('c16', IMPORTS, 'c16r_check', [d[0] for d in deferred], chunk=chunk)
     for e in errs:
         ctx.violation('correspondence:coq-eval', {'error': e}, False, e[:300])
     chain_stream(ctx)
     namespaced_stream(ctx)
     g0 = 'start: a B\na: A\nA: "a"\nB: "b"\n'
-    seen = {'tr': 0, 'emb': 0}
+    seen = {'tr': 0, 'emb': 0, 'hist': 0, 'merge': 0, 'vargs': 0, 'dag': 0}
     for i in bad:
         kind, m = deferred[i][1]
         seen[kind] += 1
         if seen[kind] > 3:
             continue
-        if kind == 'tr':
+        if kind in R12_KINDS:
+            ctx.violation('correspondence:%s' % R12_KINDS[kind][0], dict(m, no_longer_checks=R12_KINDS[kind][1]), False,
+                          R12_KINDS[kind][1] + ': the Coq model disagrees with what lark did')
+        elif kind == 'tr':
             ctx.violation('correspondence:Shape/Transform.v vs visitors.py traversals',
                           dict(m, no_longer_checks='value / call log of the four traversals == Coq models',
                                tree=sl.show(m['tree'])), False,
@@ -489,6 +515,12 @@ def correspond(ctx):
         ctx.violation('embedded-vs-posthoc', wit, True, bad, key='F27:embedded-Transformer_InPlace-callback-gets-Tree')
 
 
+R12_KINDS = {
+    'hist': ('Shape/Transform.v on an object with a history', 'value of the four traversals == Coq models under the attribute state the object has now'),
+    'merge': ('Shape/GenTie.merge_T vs merge_transformers', 'merge_transformers(base, prefix=sub) == merged lookup of the model'),
+    'vargs': ('Shape/VArgs.v vs v_args wrappers / apply_visit_wrapper / inplace_transformer', 'call shape of a decorated callback (post-hoc, embedded, embedded in-place)'),
+    'dag': ('Shape/InPlaceDag.v vs Transformer_InPlace / _InPlaceRecursive on a DAG', 'iter_subtrees order and final values on a heap with shared objects'),
+}
 _MODDIRS = {}
 
 
@@ -694,6 +726,15 @@ def replay(ctx, case):
         except Exception:
             return True
         return False
+    if w.get('hist_kind') == 'variants':
+        return shh.variants_hist_bad(w) is not None
+    if w.get('hist_kind') == 'embedded':
+        try:
+            return shh.embedded_hist_bad(w) is not None
+        except Exception:
+            return True
+    if 'dag' in w and 'base' in w:
+        return shh.dag_bad(w)
     if w.get('kind') == 'namespaced-merge':
         c2 = type(ctx)(ctx.prop, ctx.tier, ctx.seed)
         try:
